@@ -133,6 +133,18 @@ CLAIMS = {
         design_ref="DESIGN.md section 3, C12",
         technique="static analysis: exhaustive order-domain abstract evaluation of comparison methods + eq/hash field-set and write-site rules",
     ),
+    "C02": dict(
+        text=("Constants and finite rules only - agreement of every date with an independent implementation over thousands of years is a value-level claim and is NOT decided (in particular the closed-form "
+              "year starts, the Hebrew molad / postponement arithmetic and the 2820-year Persian year starts are not). Decided, because nothing else constrains them (a shifted epoch or a wrong leap "
+              "bit is self-consistent): (R02.1) the day number of year 1's first day of each of the 15 arithmetic calculator instances (evaluated from CalendarSystem's construction sites) equals the "
+              "published epoch (fixed day numbers of Reingold & Dershowitz re-based to 1970-01-01; the Thursday / Friday Islamic epochs, the BCL Persian epoch); (R02.2) each leap predicate, "
+              "abstractly evaluated on every year of one full cycle (Gregorian 400, Julian/Coptic 4, the four tabular Islamic patterns 30, Hebrew 19, Persian 33-year and the 2820-year arithmetic "
+              "rule from year 475), equals the published rule, and the predicate uses the year only through remainders by divisors of the cycle (read off the syntax), so one cycle covers all "
+              "years; (R02.3) days-in-month of a common and a leap year equal the published month tables (Hebrew excluded); (R02.4) the day-of-week formula gives Thursday for day 0, steps "
+              "cyclically over 15 consecutive days across both arms, and uses the day number only modulo 7."),
+        design_ref="DESIGN.md section 0.4 and section 3, C02",
+        technique="static analysis: abstract evaluation of construction sites and finite-domain (one full cycle) evaluation of the leap / month / weekday rules against published tables, with a syntactic periodicity check",
+    ),
     "C03": dict(
         text=("Static rules: (R03.1) range prover (interval abstract interpretation with per-path states, guard inlining, contracts): at every construction site of Duration/Instant/"
               "_LocalInstant/Offset enumerated by the program model the nanosecond-of-day is proved in [0, 24h) and the day/second count inside the type's range (or guarded), incl. the "
@@ -208,9 +220,7 @@ CLAIMS = {
     ),
 }
 
-NA = {
-    "C02": "agreement of numeric results with external published algorithms over thousands of years; no clause is visible in the shape of the code (DESIGN.md section 3, C02)",
-}
+NA = {}
 
 
 def main() -> None:
